@@ -3,7 +3,7 @@ import XpmVerif.Model.Ident
     inserted into a list at ANY nesting depth of a value is invisible to the comparison with ANY declared default
     (`HashComputer._is_default` drops ignored members at every level it recurses into, not only at the top level that
     `remove_meta` cleans) — so a value equal to its default up to such members is skipped like the default.
-    Lists inside lists, unbounded depth; the dict spine is covered by the differential only (seeded change C02f). -/
+    Lists inside lists, unbounded depth; the dict case is proved one level deep (`isDefault_dict_meta_insert`), deeper dict spines are covered by the differential (seeded change C02f). -/
 namespace XpmVerif.C02Deep
 open XpmVerif.Ident
 
@@ -61,5 +61,12 @@ example : MetaIns (fun n => if n = 7 then some true else none) (.list ([] ++ .li
   .inList [] [] _ _ (.here [] [] 7 (by simp))
 /-- … and needed: with the flag unset the same value is NOT the default. -/
 example : isDefault (fun _ _ => false) (fun _ => none) (.list [.list []]) (.list [.list [.ref 7]]) = false := by decide
+
+/-- one level, dict: a meta=True value inserted under a new key anywhere in a dict is invisible to the comparison with any default. -/
+theorem isDefault_dict_meta_insert (ceq : Nat → Nat → Bool) (mt : Nat → Option Bool) (d : Val)
+    (k1 k2 : List (List Nat)) (v1 v2 : List Val) (k : List Nat) (m : Nat) (hl : k1.length = v1.length) (hm : mt m = some true) :
+    isDefault ceq mt d (.dict (k1 ++ k :: k2) (v1 ++ .ref m :: v2)) = isDefault ceq mt d (.dict (k1 ++ k2) (v1 ++ v2)) := by
+  have hd : dropped mt (.ref m) = true := by simp [dropped, hm]
+  cases d <;> simp [isDefault, pyEq, List.zip_append hl, List.filter_append, hd]
 
 end XpmVerif.C02Deep
